@@ -220,7 +220,22 @@ public:
 
 			std::lock_guard<Mutex> lockGuard(mutex);
 
-			doInsert(node, beforeNode);
+			if(beforeNode->counter != removedCounter) {
+				doInsert(node, beforeNode);
+			}
+			else {
+				// `before` was already removed (it is only kept alive by a running invocation
+				// or by the lock() above), so the callback is added at the end of the list.
+				if(head) {
+					node->previous = tail;
+					tail->next = node;
+					tail = node;
+				}
+				else {
+					head = node;
+					tail = node;
+				}
+			}
 
 			return Handle(node);
 		}
@@ -238,7 +253,7 @@ public:
 		std::lock_guard<Mutex> lockGuard(mutex);
 
 		auto node = handle.lock();
-		if(node) {
+		if(node && node->counter != removedCounter) {
 			doFreeNode(node);
 			return true;
 		}
@@ -251,7 +266,7 @@ public:
 		std::lock_guard<Mutex> lockGuard(mutex);
 
 		auto node = handle.lock();
-		if(node) {
+		if(node && node->counter != removedCounter) {
 			while(node->previous) {
 				node = node->previous;
 			}
